@@ -168,26 +168,41 @@ def handle (req impl : String) : String × String :=
                    else merge chain
       let model := qs.map fun (n, g) => showRes (load table ph fuel n g)
       let modelS := if model.isEmpty then "." else ",".intercalate model
-      let implL := impl.splitOn ","
+      -- IMPL = answers in the given order, then `!<order>:<answers>` for every order of asking
+      -- (on one reader) that answered differently
+      let implParts := impl.splitOn "!"
+      let mainS := implParts.headD ""
+      let extras : List (String × String) := implParts.tail.map fun e =>
+        match e.splitOn ":" with
+        | name :: rest => (name, ":".intercalate rest)
+        | [] => ("?", "")
+      let lists : List (String × List String) :=
+        ("given", mainS.splitOn ",") :: extras.map fun (nm, l) => (nm, l.splitOn ",")
       if ¬ wfPlan chain ph then (modelS, "na") else
-      if implL.length ≠ qs.length ∨ impl.startsWith "open-err" then
+      if lists.any (fun l => l.2.length ≠ qs.length) ∨ impl.startsWith "open-err" then
         (modelS, "fail:other the file does not open / answer count differs")
       else
-      let verdicts := (List.zip qs implL).map fun ((n, g), got) =>
+      let verdicts := lists.flatMap fun (oname, implL) =>
+       (List.zip qs implL).map fun ((n, g), got) =>
         let spec := specResolve chain ph fuel n g
         let nw := newest chain n
+        let tag := if oname = "given" then "" else s!" order={oname}"
         match spec with
         | .absent | .genMismatch | .illformed => ("skip", "")
         | _ =>
           let want := showSRes spec
           if recovery ∧ spec = SRes.null then ("skip", "")   -- free-ness lives only in the damaged data
           else if got = want then ("ok", "")
+          else if oname ≠ "given" ∧ oname ≠ "fresh" ∧ ¬ recovery then
+            -- the given order may be right and another order of asking the same reader is not:
+            -- the answer depends on what the reader was asked before
+            ("answer-depends-on-order", s!"obj={n} got={got} want={want}{tag}")
           else if ¬ recovery ∧ ¬ isComp nw ∧ staleCopy chain ph fuel n = some got then
-            ("stale-compressed-copy-wins", s!"obj={n} got={got} want={want}")
+            ("stale-compressed-copy-wins", s!"obj={n} got={got} want={want}{tag}")
           else if recovery ∧ isComp nw ∧
               (got = "null" ∨ got = "err:ref" ∨ lastPhysical ph n = some got) then
-            ("recovery-skips-object-streams", s!"obj={n} got={got} want={want}")
-          else ("other", s!"obj={n} got={got} want={want}")
+            ("recovery-skips-object-streams", s!"obj={n} got={got} want={want}{tag}")
+          else ("other", s!"obj={n} got={got} want={want}{tag}")
       let bad := verdicts.filter fun v => v.1 ≠ "ok" ∧ v.1 ≠ "skip"
       if bad.isEmpty then
         (modelS, if verdicts.any (·.1 = "ok") then "ok" else "na")
